@@ -11,7 +11,7 @@ for f in ("patch.diff", "demo.rs", "meta.json"):
     if os.path.exists(os.path.join(src, f)):
         shutil.copy(os.path.join(src, f), os.path.join(dst, f if f != "meta.json" else "agent_meta.json"))
 assert subprocess.run(["git", "-C", "/repo", "status", "--porcelain", "--untracked-files=no"], capture_output=True, text=True).stdout.strip() == "", "repo dirty"
-SNAP = "/verif/work/snap"
+SNAP = os.environ.get("SEEDRUN_SNAP", "/verif/work/snap")   # SEEDRUN_SNAP + SEEDRUN_OUT: run against another snapshot, results elsewhere
 if not os.path.exists(SNAP + "/.ready"):
     os.makedirs(SNAP, exist_ok=True)
     subprocess.run(["rsync", "-a", "--delete", "--exclude", "work", "--exclude", "harness/target", "--exclude", ".git", "--exclude", "replays", "/verif/", SNAP + "/"], check=True)
@@ -36,6 +36,10 @@ meta = dict(seed=name, property=prop, summary=am.get("summary"), needs_to_manife
             confirmed_by_me=conf[-1].strip() if conf else None,
             ran=["git -C /repo apply patch.diff; ./check run %s --tier quick; git -C /repo checkout -- ." % c for c in checks],
             results=res, detected=any(r["exit"] == 1 for r in res.values()))
-json.dump(meta, open(os.path.join(dst, "meta.json"), "w"), indent=1)
+if os.environ.get("SEEDRUN_OUT"):
+    os.makedirs(os.environ["SEEDRUN_OUT"], exist_ok=True)
+    json.dump(meta, open(os.path.join(os.environ["SEEDRUN_OUT"], name + ".json"), "w"), indent=1)
+else:
+    json.dump(meta, open(os.path.join(dst, "meta.json"), "w"), indent=1)
 os.remove(os.path.join(dst, "agent_meta.json")) if os.path.exists(os.path.join(dst, "agent_meta.json")) else None
 print(name, "DETECTED" if meta["detected"] else "MISSED", {c: r["exit"] for c, r in res.items()})
